@@ -314,12 +314,94 @@ def r126(facts, res):
     res.floor(R, 'Span constructions in the specification parsers', n, 20)
 
 
+# R12.7's sink is "the position a function returns": a view that dissolves the function has no such return any more
+NO_INLINE_VIEW = {'R12.7'}
+
+LEN_CHANGING = ('to_lowercase', 'to_uppercase', 'to_ascii_lowercase', 'to_ascii_uppercase', 'replace', 'replacen', 'repeat', 'escape_debug', 'escape_default',
+                'trim', 'trim_start', 'trim_end', 'trim_matches', 'trim_start_matches', 'trim_end_matches')
+SAME_LEN = ('to_ascii_lowercase', 'to_ascii_uppercase')
+
+
+def r127(facts, res, cone):
+    """A cursor into the source moves by the length of the SOURCE text that was matched.  The byte length of a transformed copy
+    (lower-/upper-cased, replaced, trimmed) can differ from it - `to_lowercase()` turns the three-byte KELVIN SIGN into `k` - and
+    a cursor advanced by such a length can land inside a character, where the next slice panics.  No length of a transformed
+    copy may reach a returned position, a slice bound or a span."""
+    R = 'R12.7'
+    n = 0
+    bad = []
+    for path in sorted(cone):
+        b = facts.bodies.get(path)
+        if b is None or b.from_expansion:
+            continue
+        seeds = {}
+        for bb, t in b.calls_named('len'):
+            c = callee_of(t)
+            if not c or not t['args'] or not ('core::str' in c['path'] or 'alloc::string::String' in c['path']):
+                continue
+            r, projs, via = b.op_root(t['args'][0], through=Body.THROUGH + LEN_CHANGING + ('to_string', 'to_owned', 'as_str', 'into', 'from'), stop_named=False)
+            hit = [v for v in via if v in LEN_CHANGING and v not in SAME_LEN and not v.startswith('trim')]
+            if hit:
+                seeds[t['dest']['l']] = (bb, hit[0], t.get('line'))
+        n += len([1 for bb, t in b.calls(lambda t: cname(t) in LEN_CHANGING and cname(t) not in SAME_LEN and not cname(t).startswith('trim'))])
+        if not seeds:
+            continue
+        tainted = dict((l, l) for l in seeds)
+        changed = True
+        while changed:
+            changed = False
+            for bb in sorted(b.reachable()):
+                for st in b.blocks[bb]['stmts']:
+                    if st['k'] != 'assign' or st['lhs']['p']:
+                        continue
+                    rv = st['rv']
+                    srcs = []
+                    if 'use' in rv and op_place(rv['use']):
+                        srcs.append(op_place(rv['use'])['l'])
+                    if rv.get('bin') in ('Add', 'AddWithOverflow', 'AddUnchecked', 'Sub', 'SubWithOverflow'):
+                        srcs += [x for x in (op_local(rv['a']), op_local(rv['b'])) if x is not None]
+                    for x in srcs:
+                        if x in tainted and st['lhs']['l'] not in tainted:
+                            tainted[st['lhs']['l']] = tainted[x]
+                            changed = True
+        for bb, _i, st in b.stmts():
+            if st['k'] != 'assign':
+                continue
+            rv = st['rv']
+            if 'agg' in rv and any(op_local(o) in tainted for o in rv['ops']):
+                agg = rv['agg']
+                what = None
+                if agg == 'tuple' and st['lhs']['l'] == 0 or (isinstance(agg, dict) and agg.get('adt', '').startswith('core::ops::range::Range')):
+                    what = 'a slice bound' if isinstance(agg, dict) else 'a returned position'
+                elif agg == 'tuple':
+                    # a tuple that is then wrapped into the return value
+                    l0 = st['lhs']['l']
+                    if any(s2['k'] == 'assign' and s2['lhs']['l'] == 0 and 'agg' in s2['rv'] and any(op_local(o) == l0 for o in s2['rv']['ops']) for _b2, _i2, s2 in b.stmts()):
+                        what = 'a returned position'
+                if what:
+                    o = [op_local(o) for o in rv['ops'] if op_local(o) in tainted][0]
+                    sb, how, ln = seeds[tainted[o]]
+                    bad.append((b, bb, '%s is computed from the length of a `%s()` copy (line %s): its byte length can differ from that of the text in the source' % (what, how, ln)))
+        for bb, t in b.calls():
+            if (cpath(t) or '').endswith('span::Span::new') and any(op_local(a) in tainted for a in t['args']):
+                o = [op_local(a) for a in t['args'] if op_local(a) in tainted][0]
+                sb, how, ln = seeds[tainted[o]]
+                bad.append((b, bb, 'a span bound is computed from the length of a `%s()` copy (line %s)' % (how, ln)))
+    if bad:
+        b, bb, msg = bad[0]
+        res.bad(R, 'cursor-from-transformed-length:%s' % strip_generics(b.path).split('::')[-1], loc_of(b, bb), msg, {'function': b.path})
+    else:
+        res.ok(R, 'no-cursor-from-transformed-length', '', 'no position, slice bound or span in the specification parsers is computed from the length of a transformed copy of the text '
+               '(%d length-changing transformations in the cone)' % n)
+
+
 def run(facts, res):
     cg = CallGraph(facts, CRATES)
     ents = entries(facts, res, 'cone')
     cone = cg.cone([b.path for b in ents])
     # closures of cone functions are part of it
     res.count('cone functions', len(cone))
+    r127(facts, res, cone)
     r121(facts, res, cone, cg)
     r125(facts, res, cone, cg)
     r126(facts, res)
